@@ -36,6 +36,7 @@ class Walker:
         self.methods_by_id = methods_by_id
         self.method_names = method_names
         self.line = 0
+        self.taint = {}                 # local pointer / reference / iterator variable (decl id) -> fields it points into
 
     def note_line(self, node):
         for key in ("loc", "range"):
@@ -72,6 +73,25 @@ class Walker:
                             return f
         return None
 
+    @staticmethod
+    def pointer_like(var):
+        t = var.get("type") or {}
+        q = t.get("qualType", "") + " " + t.get("desugaredQualType", "")
+        return "*" in q or "&" in q or "iterator" in q
+
+    def tainted_fields(self, node, acc):
+        """fields reachable through what this expression mentions: fields themselves and local pointers into fields"""
+        if isinstance(node, dict):
+            mid = self.is_this_member(node)
+            if mid and mid in self.fields:
+                acc.add(self.fields[mid])
+            if node.get("kind") == "DeclRefExpr":
+                rid = (node.get("referencedDecl") or {}).get("id")
+                if rid in self.taint:
+                    acc.update(self.taint[rid])
+            for c in node.get("inner", []):
+                self.tainted_fields(c, acc)
+
     def collect_members(self, node, acc):
         if isinstance(node, dict):
             mid = self.is_this_member(node)
@@ -102,6 +122,20 @@ class Walker:
                 if c.get("kind") == "CompoundStmt":
                     self.walk(c, locks, out, ctx, in_ctor)
             return
+        if kind == "VarDecl" and self.pointer_like(node) and node.get("inner"):
+            acc = set()
+            for c in node.get("inner", []):
+                self.tainted_fields(c, acc)
+            acc.discard("scheduler_mutex_")
+            if acc:
+                self.taint[node.get("id")] = acc
+        if kind == "DeclRefExpr":
+            rid = (node.get("referencedDecl") or {}).get("id")
+            if rid in self.taint:
+                # using a pointer / reference / iterator into a field is an access to that field, here, under the locks held here
+                for f in sorted(self.taint[rid]):
+                    out.append(("access", f, "r" if ctx in ("r", "a") else ctx, self.line, locks))
+            return
         mid = self.is_this_member(node)
         if mid and mid in self.fields:
             out.append(("access", self.fields[mid], ctx, self.line, locks))
@@ -115,6 +149,18 @@ class Walker:
                 self.walk(c, locks, out, "r", in_ctor)
             return
         if kind in ("BinaryOperator", "CompoundAssignOperator") and (node.get("opcode", "") == "=" or kind == "CompoundAssignOperator"):
+            if inner and len(inner) >= 2:
+                lhs = inner[0]
+                while lhs.get("kind") in ("ParenExpr", "ImplicitCastExpr"):
+                    lhs = (lhs.get("inner") or [{}])[0]
+                if lhs.get("kind") == "DeclRefExpr":
+                    ref = lhs.get("referencedDecl") or {}
+                    if self.pointer_like(ref):
+                        acc = set()
+                        self.tainted_fields(inner[1], acc)
+                        acc.discard("scheduler_mutex_")
+                        if acc:
+                            self.taint.setdefault(ref.get("id"), set()).update(acc)
             if inner:
                 self.walk(inner[0], locks, out, "w", in_ctor)
                 for c in inner[1:]:
@@ -186,6 +232,7 @@ def analyse(repo):
     lambdas = []
     for name, o in bodies.items():
         events = []
+        w.taint = {}
         in_ctor = False
         w.line = (o.get("loc") or {}).get("line", 0)
         for c in o.get("inner", []):
